@@ -69,6 +69,16 @@ def _new_public_function(h) -> bool:
   return h.qualname not in baseline_api()
 
 
+_KNOWN_BARE = None
+
+
+def known_bare_names() -> Set[str]:
+  global _KNOWN_BARE
+  if _KNOWN_BARE is None:
+    _KNOWN_BARE = {k.lstrip('_') for k in known_names()}
+  return _KNOWN_BARE
+
+
 def _module_is_helper_only(h) -> bool:
   """The function lives in a module no rule knows anything about (neither the
   module's name nor any of its functions): a helper module split off from the
@@ -191,8 +201,8 @@ def eligible(h, generator: bool = False, nested_ok: bool = False,
     return False
   if n.decorator_list or n.args.vararg or n.args.kwarg:
     return False
-  if h.name in known_names() or h.name.lstrip('_') in known_names():
-    return False
+  if h.name in known_names() or h.name.lstrip('_') in known_bare_names():
+    return False  # an anchor, possibly (un)privatised
   if not h.name.startswith('_') and not nested_ok and not (
       other_module and _module_is_helper_only(h)) and not (
           _new_public_function(h)):
